@@ -152,9 +152,21 @@ def classify_loop(F, fn, an, header, body, bounded_types):
     pv = Prover(an)
     for b in sorted(body):
         d = an.switches.get(b)
-        if d is None or not (d.op == "bin" and d.args[0] == "Lt"):
+        # `i < n` left when false, or the same test spelled `i >= n` / `n <= i` / `!(i < n)` left when true
+        exit_on_true = False
+        for _ in range(3):
+            if d is not None and d.op == "un" and d.args[0] == "Not":
+                d, exit_on_true = d.args[1], not exit_on_true
+        if d is None or not (d.op == "bin" and d.args[0] in ("Lt", "Ge", "Le", "Gt")):
             continue
-        i, n = d.args[1], d.args[2]
+        if d.args[0] == "Lt":
+            i, n = d.args[1], d.args[2]
+        elif d.args[0] == "Ge":
+            i, n, exit_on_true = d.args[1], d.args[2], not exit_on_true
+        elif d.args[0] == "Le":
+            i, n, exit_on_true = d.args[2], d.args[1], not exit_on_true
+        else:
+            i, n = d.args[2], d.args[1]
         if not (i.op == "phi" and i.args[0] == (an.fid, header)):
             continue
         if any(fid == an.fid and blk in body for fid, blk in n.syms()):
@@ -162,8 +174,12 @@ def classify_loop(F, fn, an, header, body, bounded_types):
         if not all(an.dominates(b, s) for s in back_srcs):
             continue
         t = an.blocks[b]["term"]
-        false_exits = any(int(v) == 0 and tb not in body for v, tb in t["targets"])
-        if not false_exits:
+        if exit_on_true:
+            nonzero = [tb for v, tb in t["targets"] if int(v) != 0] or ([t["otherwise"]] if all(int(v) == 0 for v, _ in t["targets"]) else [])
+            leaves = any(_leaves_loop(an, tb, body) for tb in nonzero)
+        else:
+            leaves = any(int(v) == 0 and _leaves_loop(an, tb, body) for v, tb in t["targets"])
+        if not leaves:
             continue
         ops = an.phi_ops.get(i, {})
         inc_ok = True
@@ -179,6 +195,23 @@ def classify_loop(F, fn, an, header, body, bounded_types):
         if inc_ok:
             return True, "counter loop: %s < %s, incremented on every path to the back edge" % (pp(i), pp(n)[:80])
     return False, "loop at bb%d has no recognised ranking argument" % header
+
+
+def _leaves_loop(an, tb, body):
+    """the branch target is outside the loop, or a block inside it that can only leave it (an `|| `-joined exit test whose common
+    exit block the loop analysis counts into the body)"""
+    if tb not in body:
+        return True
+    seen, work = {tb}, [tb]
+    while work:
+        x = work.pop()
+        for s_ in an.succs[x]:
+            if (x, s_) in an.back_edges:
+                return False
+            if s_ in body and s_ not in seen:
+                seen.add(s_)
+                work.append(s_)
+    return True
 
 
 CONSUMERS = {"fold", "try_fold", "find", "find_map", "position", "rposition", "rfind", "any", "all", "count", "last", "nth", "for_each", "try_for_each",
